@@ -404,61 +404,169 @@ type condFact struct {
 // which such a phi has the value no constant gives it, the computed operand has that value and everything known at
 // the block that computed it holds as well.
 func impliedConds(b *ssa.BasicBlock) []condFact {
-	var out []condFact
-	seen := map[*ssa.BasicBlock]bool{}
-	var at func(b *ssa.BasicBlock, depth int)
-	var expand func(v ssa.Value, truth bool, depth int)
-	expand = func(v ssa.Value, truth bool, depth int) {
-		if depth > 8 {
+	cw := newCondWalker()
+	cw.at(b, 0)
+	return cw.out
+}
+
+// valueConds returns what follows from the boolean value v having the given truth (v itself, resolved through
+// negations and the phi lowering of && and ||, together with what is known where its operands were computed).
+func valueConds(v ssa.Value, truth bool) []condFact {
+	cw := newCondWalker()
+	cw.expand(v, truth, 0)
+	return cw.out
+}
+
+type condWalker struct {
+	out  []condFact
+	seen map[*ssa.BasicBlock]bool
+}
+
+func newCondWalker() *condWalker { return &condWalker{seen: map[*ssa.BasicBlock]bool{}} }
+
+func (cw *condWalker) expand(v ssa.Value, truth bool, depth int) {
+	if depth > 8 {
+		return
+	}
+	switch x := v.(type) {
+	case *ssa.UnOp:
+		if x.Op == token.NOT {
+			cw.expand(x.X, !truth, depth+1)
 			return
 		}
-		switch x := v.(type) {
-		case *ssa.UnOp:
-			if x.Op == token.NOT {
-				expand(x.X, !truth, depth+1)
-				return
-			}
-		case *ssa.Phi:
-			var rest []int
-			for j, e := range x.Edges {
-				if k, ok := e.(*ssa.Const); ok && k.Value != nil && k.Value.Kind() == constant.Bool {
-					if constant.BoolVal(k.Value) == truth {
-						return // a constant edge can give this value: nothing follows
-					}
-					continue
+	case *ssa.Phi:
+		var rest []int
+		for j, e := range x.Edges {
+			if k, ok := e.(*ssa.Const); ok && k.Value != nil && k.Value.Kind() == constant.Bool {
+				if constant.BoolVal(k.Value) == truth {
+					return // a constant edge can give this value: nothing follows
 				}
-				rest = append(rest, j)
-			}
-			if len(rest) == 1 && rest[0] < len(x.Block().Preds) {
-				expand(x.Edges[rest[0]], truth, depth+1)
-				at(x.Block().Preds[rest[0]], depth+1)
-			}
-			return
-		}
-		out = append(out, condFact{v, truth})
-	}
-	at = func(b *ssa.BasicBlock, depth int) {
-		if seen[b] || depth > 8 {
-			return
-		}
-		seen[b] = true
-		for d := b; d != nil; d = d.Idom() {
-			id := d.Idom()
-			if id == nil || len(id.Instrs) == 0 {
 				continue
 			}
-			ifi, ok := id.Instrs[len(id.Instrs)-1].(*ssa.If)
-			if !ok {
+			rest = append(rest, j)
+		}
+		if len(rest) == 1 && rest[0] < len(x.Block().Preds) {
+			cw.expand(x.Edges[rest[0]], truth, depth+1)
+			cw.at(x.Block().Preds[rest[0]], depth+1)
+		}
+		return
+	}
+	cw.out = append(cw.out, condFact{v, truth})
+}
+
+func (cw *condWalker) at(b *ssa.BasicBlock, depth int) {
+	if cw.seen[b] || depth > 8 {
+		return
+	}
+	cw.seen[b] = true
+	for d := b; d != nil; d = d.Idom() {
+		id := d.Idom()
+		if id == nil || len(id.Instrs) == 0 {
+			continue
+		}
+		ifi, ok := id.Instrs[len(id.Instrs)-1].(*ssa.If)
+		if !ok {
+			continue
+		}
+		switch {
+		case edgeDominates(id, 0, b):
+			cw.expand(ifi.Cond, true, depth)
+		case edgeDominates(id, 1, b):
+			cw.expand(ifi.Cond, false, depth)
+		}
+	}
+}
+
+// predicateFacts: what is known about the parameters of the boolean function h whenever it returns `truth` — the facts
+// common to all its returns that can produce that value. The facts are stated over h's own values (parameters, calls
+// on them); the caller maps parameters to arguments.
+func predicateFacts(h *ssa.Function, truth bool) []condFact {
+	if h == nil || len(h.Blocks) == 0 || h.Signature.Results().Len() != 1 {
+		return nil
+	}
+	if b, ok := h.Signature.Results().At(0).Type().Underlying().(*types.Basic); !ok || b.Kind() != types.Bool {
+		return nil
+	}
+	var common []condFact
+	first := true
+	for _, ret := range returnsOf(h) {
+		rv := ret.Results[0]
+		if k, ok := rv.(*ssa.Const); ok && k.Value != nil && k.Value.Kind() == constant.Bool && constant.BoolVal(k.Value) != truth {
+			continue
+		}
+		facts := append(impliedConds(ret.Block()), valueConds(rv, truth)...)
+		if first {
+			common, first = facts, false
+			continue
+		}
+		var keep []condFact
+		for _, c := range common {
+			for _, f := range facts {
+				if sameCondFact(c, f) {
+					keep = append(keep, c)
+					break
+				}
+			}
+		}
+		common = keep
+	}
+	return common
+}
+
+// sameCondFact: the same truth of the same condition — the same value, or the same comparison of the same operands.
+func sameCondFact(a, b condFact) bool {
+	if a.Truth != b.Truth {
+		return false
+	}
+	if a.Cond == b.Cond {
+		return true
+	}
+	x, ok1 := a.Cond.(*ssa.BinOp)
+	y, ok2 := b.Cond.(*ssa.BinOp)
+	if ok1 && ok2 && x.Op == y.Op && x.X == y.X {
+		kx, okx := x.Y.(*ssa.Const)
+		ky, oky := y.Y.(*ssa.Const)
+		return okx && oky && constKey(kx) == constKey(ky)
+	}
+	return false
+}
+
+// predicateNilEdge: cond is a call of a boolean helper of the package that is handed v; it returns the successor index
+// (0 true, 1 false) of the edge on which the helper's result implies v == nil, or -1.
+func predicateNilEdge(cond ssa.Value, same func(arg ssa.Value) bool) int {
+	neg := false
+	for {
+		if u, ok := cond.(*ssa.UnOp); ok && u.Op == token.NOT {
+			cond, neg = u.X, !neg
+			continue
+		}
+		break
+	}
+	call, ok := cond.(*ssa.Call)
+	if !ok || call.Call.StaticCallee() == nil || len(call.Call.StaticCallee().Blocks) == 0 {
+		return -1
+	}
+	h := call.Call.StaticCallee()
+	for _, truth := range []bool{true, false} {
+		for _, f := range predicateFacts(h, truth) {
+			bo, ok := f.Cond.(*ssa.BinOp)
+			if !ok || (bo.Op != token.NEQ && bo.Op != token.EQL) {
 				continue
 			}
-			switch {
-			case edgeDominates(id, 0, b):
-				expand(ifi.Cond, true, depth)
-			case edgeDominates(id, 1, b):
-				expand(ifi.Cond, false, depth)
+			k, ok := bo.Y.(*ssa.Const)
+			if !ok || !k.IsNil() || f.Truth != (bo.Op == token.EQL) {
+				continue
+			}
+			for i, prm := range h.Params {
+				if bo.X == ssa.Value(prm) && i < len(call.Call.Args) && same(call.Call.Args[i]) {
+					edge := 1
+					if truth != neg {
+						edge = 0
+					}
+					return edge
+				}
 			}
 		}
 	}
-	at(b, 0)
-	return out
+	return -1
 }
